@@ -2,7 +2,7 @@
 # Runs the repository's pinned suite (guard OFF) and compares with BASELINE.json's stable_pass list.
 unset THERMOSTEAM_VERIF
 OUT=${1:-/tmp/verif-baseline.$$.xml}
-cd /repo && /venv/bin/python -m pytest -ra -q -p no:cacheprovider --timeout=900 --continue-on-collection-errors --junitxml=$OUT >/dev/null 2>&1
+cd ${VERIF_REPO:-/repo} && /venv/bin/python -m pytest -ra -q -p no:cacheprovider --timeout=900 --continue-on-collection-errors --junitxml=$OUT >/dev/null 2>&1
 /venv/bin/python - "$OUT" <<'PY'
 import sys, json, xml.etree.ElementTree as ET
 base = set(json.load(open('/root/.vp/BASELINE.json'))['stable_pass'])
